@@ -518,6 +518,10 @@ class Analyzer:
                 return (a, b) if pos else (b, a)
         if self.is_peek(cond):
             return uniq([s.with_(ne=True) for s in states]), states
+        if k == "path" and len(cond.get("segs", [])) == 1 and any(s.outcome(cond["segs"][0]) for s in states):
+            # a boolean result of a cursor function that was bound to a local first
+            v = cond["segs"][0]
+            return [s for s in states if s.outcome(v) in ("some", None)], [s for s in states if s.outcome(v) in ("none", None)]
         if k == "binary" and cond["op"] in ("==", "!="):
             for side, other in ((cond["l"], cond["r"]), (cond["r"], cond["l"])):
                 if self.is_peek(side) and sir.expr_str(other).startswith("Some"):
